@@ -97,6 +97,15 @@ pub fn run(mut config: Config) -> ::anyhow::Result<()> {
                     config.cleaning.torrent_cleaning_interval,
                 ));
 
+                #[cfg(aquatic_verif)]
+                match aquatic_common::verif::probe("udp.cleaning.loop") {
+                    aquatic_common::verif::ACTION_RETURN_OK => return Ok(()),
+                    aquatic_common::verif::ACTION_RETURN_ERR => {
+                        return Err(anyhow::anyhow!("verif: injected cleaning worker error"))
+                    }
+                    _ => (),
+                }
+
                 let export_full_scrape = config.scrape_exports.enable_scrape_exports
                     && counter % (config.scrape_exports.frequency.max(1)) == 0;
 
@@ -118,6 +127,9 @@ pub fn run(mut config: Config) -> ::anyhow::Result<()> {
                 }
 
                 counter = counter.wrapping_add(1);
+
+                #[cfg(aquatic_verif)]
+                aquatic_common::verif::count("udp.clean_done");
             }
         })?;
 
@@ -166,6 +178,15 @@ pub fn run(mut config: Config) -> ::anyhow::Result<()> {
             .name("signals".into())
             .spawn(move || {
                 for signal in &mut signals {
+                    #[cfg(aquatic_verif)]
+                    match aquatic_common::verif::probe("udp.signals.loop") {
+                        aquatic_common::verif::ACTION_RETURN_OK => return Ok(()),
+                        aquatic_common::verif::ACTION_RETURN_ERR => {
+                            return Err(anyhow::anyhow!("verif: injected signals worker error"))
+                        }
+                        _ => (),
+                    }
+
                     match signal {
                         SIGUSR1 => {
                             let _ = update_access_list(&config.access_list, &state.access_list);
